@@ -13,6 +13,8 @@ pub struct Req {
     pub n: u64,
     pub conn: u64,
     pub method: String,
+    /// Request target as sent (path and query).
+    pub path: String,
     /// Inclusive byte range from the Range header, if present and well-formed.
     pub range: Option<(u64, u64)>,
     pub raw_range: Option<String>,
@@ -193,6 +195,7 @@ fn serve_conn(stream: TcpStream, conn: u64, core: Arc<Core>) {
             }
         }
         let method = lines[0].split(' ').next().unwrap_or("").to_string();
+        let path = lines[0].split(' ').nth(1).unwrap_or("").to_string();
         let mut headers = Vec::new();
         let mut raw_range = None;
         for l in &lines[1..] {
@@ -214,6 +217,7 @@ fn serve_conn(stream: TcpStream, conn: u64, core: Arc<Core>) {
             n,
             conn,
             method,
+            path,
             range: raw_range.as_deref().and_then(parse_range),
             raw_range,
             headers,
